@@ -17,19 +17,21 @@ def main():
     ap.add_argument("--budget", type=float, default=20)
     ap.add_argument("--tier", default="quick")
     ap.add_argument("--seed", default="0")
+    ap.add_argument("--worktree", default="/repo", help="apply and run in this scratch worktree of /repo instead (VERIF_REPO)")
     a = ap.parse_args()
-    st = subprocess.run(["git", "-C", "/repo", "status", "--porcelain"], capture_output=True, text=True).stdout.strip()
+    repo = os.path.realpath(a.worktree)
+    st = subprocess.run(["git", "-C", repo, "status", "--porcelain"], capture_output=True, text=True).stdout.strip()
     if st:
-        print("refusing: /repo has uncommitted changes:\n" + st)
+        print("refusing: %s has uncommitted changes:\n%s" % (repo, st))
         return 2
-    r = subprocess.run(["git", "-C", "/repo", "apply", os.path.abspath(a.patch)], capture_output=True, text=True)
+    r = subprocess.run(["git", "-C", repo, "apply", os.path.abspath(a.patch)], capture_output=True, text=True)
     if r.returncode != 0:
         print("patch does not apply: " + r.stderr)
         return 2
     results = {}
     try:
         for p in a.props:
-            env = dict(os.environ, VERIF_SEED=a.seed)
+            env = dict(os.environ, VERIF_SEED=a.seed, VERIF_REPO=repo)
             out = subprocess.run([os.path.join(HERE, "check"), p, "--tier", a.tier, "--budget", str(a.budget),
                                   "--no-selftest", "--no-evidence"], capture_output=True, text=True, env=env, timeout=3600)
             viol = [l for l in out.stdout.splitlines() if l.startswith("violation:")]
@@ -42,10 +44,10 @@ def main():
                 print("    " + "\n    ".join(out.stdout.strip().splitlines()[-6:]))
             print("    " + tail)
     finally:
-        subprocess.run(["git", "-C", "/repo", "checkout", "--", "."], check=True)
-        st = subprocess.run(["git", "-C", "/repo", "status", "--porcelain"], capture_output=True, text=True).stdout.strip()
+        subprocess.run(["git", "-C", repo, "checkout", "--", "."], check=True)
+        st = subprocess.run(["git", "-C", repo, "status", "--porcelain"], capture_output=True, text=True).stdout.strip()
         if st:
-            print("WARNING: /repo not clean after undo:\n" + st)
+            print("WARNING: %s not clean after undo:\n%s" % (repo, st))
     return 0
 
 
